@@ -53,6 +53,8 @@ SPECIAL = [
     '[2H][C@](F)(Cl)Br', 'C[C@]([2H])(O)CC', 'N[C@@]([2H])(C)C(=O)O', '[3H][C@]1(N)CCCO1',
     # unbonded hydrogens in mixtures, main-group hydrides
     '[H+].[Cl-]', '[Na+].[H-]', 'C[NH3+].[H-]', '[H+].[H+].[O-]S([O-])(=O)=O', '[SiH4]', '[GeH4]',
+    # one of two constitutionally equivalent donor atoms coordinated: only the coordinate bond tells the twins apart
+    'NCCN~[Cu]', 'c1ccccc1~[Cr]', 'OC(=O)CC(=O)O~[Zn]', 'OCCO~[Mg]', 'N#CCC#N~[Pd]', 'C1COCCO1~[Li]', 'CSCCSC~[Hg]', 'NCCN(~[Ni])CCN',
 ]
 # hydrogen-free main-group atoms, alone or held only by coordinate bonds: the reader keeps the written count although no valence state
 # lists it, any recalculation turns them into hydrides - usable only where a property speaks about every molecule as parsed (C02)
